@@ -28,6 +28,45 @@ def in_modules(d, mods):
     return any(d.startswith(m) for m in mods) and "::test" not in d
 
 
+def key_shapes(rep, prog, S, rule="C07-R2", only=None):
+    """serialize_key / deserialize_key / skip / convert of every key tag agree on the key's wire shape (only: restrict the compared siblings)"""
+    # ---- R2a: key tags ----------------------------------------------------------------------
+    impls = [i for i in prog.impls if (i.get("trait") or "").endswith("key_impl::KeyTagImpl") and i["crate"] == "aldrin_core"]
+    rep.floor(rule, "KeyTagImpl impls", len(impls), 10)
+    for imp in impls:
+        tag = imp["self"].split("::")[-1]
+        fns = {it["name"]: prog.body(it["def"]) for it in imp["items"] if it["kind"] == "fn"}
+        shapes = {}
+        for nm in ("serialize_key", "deserialize_key", "skip", "convert"):
+            b = fns.get(nm)
+            if b is None:
+                rep.fail(rule, imp["def"], "key:%s:%s" % (tag, nm), "function body not found")
+                continue
+            toks = S.tokens(b)
+            if nm == "convert":
+                shapes["convert(read)"] = set(codec.merge_fixed(codec.only_roles(t, ("src",))) for t in toks)
+                shapes["convert(write)"] = set(codec.merge_fixed(codec.only_roles(t, ("dst",))) for t in toks)
+            else:
+                shapes[nm] = set(codec.merge_fixed(t) for t in toks)
+        ref = shapes.get("deserialize_key")
+        for nm, sh in shapes.items():
+            if nm == "deserialize_key" or (only and not nm.startswith(only)):
+                continue
+            b = fns.get(nm.split("(")[0])
+            rep.check(sh == ref, rule, b.def_ if b else imp["def"], "key-shape<-deserialize_key",
+                      "key tag %s: %s has wire shape {%s} but deserialize_key has {%s}" % (tag, nm, "; ".join(sig.fmt(x) for x in sh), "; ".join(sig.fmt(x) for x in (ref or []))),
+                      line=b.span if b else None,
+                      detail={"tag": tag, "fn": nm, "shape": [sig.fmt(x) for x in sh], "reference": [sig.fmt(x) for x in (ref or [])]})
+        # expected width of the key type itself (independent of the siblings)
+        if tag in codec.KEY_WIDTH and ref is not None:
+            cls, w = codec.KEY_WIDTH[tag]
+            want = {(("X", cls, w),)}
+            rep.check(ref == want, rule, fns["deserialize_key"].def_, "key-width", "key tag %s decodes {%s}, expected %s<%s>" % (tag, "; ".join(sig.fmt(x) for x in ref), cls, w),
+                      detail={"tag": tag, "shape": [sig.fmt(x) for x in ref]})
+
+
+
+
 def run(rep):
     rep.explanation = EXPLANATION
     rep.trusted = ["rustc nightly MIR construction and type checking", "cargo feature resolution", "bytes::Buf contract (chunk() non-empty when remaining() > 0)",
@@ -38,39 +77,7 @@ def run(rep):
     tab = tomllib.load(open(os.path.join(engine.VERIF, "tables", "c07.toml"), "rb"))
     S = sig.Sig(prog, codec.codec_classify)
 
-    # ---- R2a: key tags ----------------------------------------------------------------------
-    impls = [i for i in prog.impls if (i.get("trait") or "").endswith("key_impl::KeyTagImpl") and i["crate"] == "aldrin_core"]
-    rep.floor("C07-R2", "KeyTagImpl impls", len(impls), 10)
-    for imp in impls:
-        tag = imp["self"].split("::")[-1]
-        fns = {it["name"]: prog.body(it["def"]) for it in imp["items"] if it["kind"] == "fn"}
-        shapes = {}
-        for nm in ("serialize_key", "deserialize_key", "skip", "convert"):
-            b = fns.get(nm)
-            if b is None:
-                rep.fail("C07-R2", imp["def"], "key:%s:%s" % (tag, nm), "function body not found")
-                continue
-            toks = S.tokens(b)
-            if nm == "convert":
-                shapes["convert(read)"] = set(codec.merge_fixed(codec.only_roles(t, ("src",))) for t in toks)
-                shapes["convert(write)"] = set(codec.merge_fixed(codec.only_roles(t, ("dst",))) for t in toks)
-            else:
-                shapes[nm] = set(codec.merge_fixed(t) for t in toks)
-        ref = shapes.get("deserialize_key")
-        for nm, sh in shapes.items():
-            if nm == "deserialize_key":
-                continue
-            b = fns.get(nm.split("(")[0])
-            rep.check(sh == ref, "C07-R2", b.def_ if b else imp["def"], "key-shape<-deserialize_key",
-                      "key tag %s: %s has wire shape {%s} but deserialize_key has {%s}" % (tag, nm, "; ".join(sig.fmt(x) for x in sh), "; ".join(sig.fmt(x) for x in (ref or []))),
-                      line=b.span if b else None,
-                      detail={"tag": tag, "fn": nm, "shape": [sig.fmt(x) for x in sh], "reference": [sig.fmt(x) for x in (ref or [])]})
-        # expected width of the key type itself (independent of the siblings)
-        if tag in codec.KEY_WIDTH and ref is not None:
-            cls, w = codec.KEY_WIDTH[tag]
-            want = {(("X", cls, w),)}
-            rep.check(ref == want, "C07-R2", fns["deserialize_key"].def_, "key-width", "key tag %s decodes {%s}, expected %s<%s>" % (tag, "; ".join(sig.fmt(x) for x in ref), cls, w),
-                      detail={"tag": tag, "shape": [sig.fmt(x) for x in ref]})
+    key_shapes(rep, prog, S)
 
     # ---- R2b: element siblings --------------------------------------------------------------
     n_groups = 0
